@@ -63,7 +63,8 @@ def mirror_lines(sim):
         is_meta = (w[0] == "fire" and w[2:4] == ["ok", "meta"]) or (w[0] == "bootreply" and w[2] == "meta")
         if is_meta and prev is not None and st["dump"] is not None:
             obs = [o for o in st["obs"] if not o.startswith("t-")]
-            calm = not any(o.startswith(("fired", "late", "bad-op")) for o in obs) and all(o.endswith("ok True") for o in obs if o.startswith("result"))
+            # only the merge happened in this step (no continuation created clients / issued requests / reset anything)
+            calm = all(o.startswith(("cancelTimer", "bootLose", "bcUpdate", "bcClose", "down")) or (o.startswith("result") and o.endswith("ok True")) for o in obs)
             loads_all = None
             # the operation whose reply this is: full refresh iff the metadata request asked for no topic
             k = w[1]
